@@ -249,7 +249,7 @@ LEVEL_TEXT = {
         "technique": "Lean 4 proof (invariant over all fault histories) + fault-injection correspondence",
     },
     "C11": {
-        "text": "The index computations of the five sampler variants are translated from samplers.py on every run into exact rational Lean functions (angles in turns). Theorems, for all map shapes >=1x1, all rational longitudes and latitudes in [-1/4,1/4] turn: the returned (iy, ix) is in range and its closed cell contains the point's position under the documented layout of the variant; the result is 1-periodic in longitude; strictly inside a cell the answer is unique; the Galactic variant indexes like the sky variant. The real samplers are run on exact rational points strictly inside cells and compared with the model and with an independent floor-based oracle.",
+        "text": "The index computations of the six sampler variants (sky, zero-right, planet, planet zero-left, Galactic, ecliptic) are translated from samplers.py on every run into exact rational Lean functions (angles in turns). Theorems, for all map shapes >=1x1, all rational longitudes and latitudes in [-1/4,1/4] turn: the returned (iy, ix) is in range and its closed cell contains the point's position under the documented layout of the variant; the result is 1-periodic in longitude; strictly inside a cell the answer is unique; the Galactic variant indexes like the sky variant and the ecliptic variant like the zero-right variant (each after its rotation, which is astropy's). The real samplers are run on exact rational points strictly inside cells and compared with the model and with an independent floor-based oracle.",
         "note": "trusted: Lean kernel; the expression translator (np.pi -> 1/2 turn etc.: a change of units because every expression is homogeneous in the angle unit); double rounding away from boundaries; astropy's rotation.",
         "technique": "Lean 4 proof over source-translated rational functions + exact-point differential execution",
     },
